@@ -319,13 +319,13 @@ PROPS["C11"] = {
 
 PROPS["C12"] = {
     "title": "Interior removal yields the non-zero-winding silhouette",
-    "gen_modules": ["PathArith", "Clockwise"],
-    "props_modules": ["C01", "C12", "C03Orient"],
+    "gen_modules": ["PathArith", "Clockwise", "Offset", "SelfIntersect"],
+    "props_modules": ["C01", "C12", "C03Orient", "C20Self"],
     "corr_n": (300, 4000),
     "search_n": (400, 8000),
     "extended_factor": 2,
     "technique": "Lean 4 theorems about the translated remove-interior / remove-overlapped predicates and the classification-loop model (signed crossing sums, odd-flip rule) + H2 trace replay + winding oracle",
-    "level_text": "Partial. single_label_predicates: with one label the generated predicate of path_remove_interior_points is 'count != 0' and that of path_remove_overlapped_points is 'count odd'; "
+    "level_text": "Partial. Props/C20Self (self_intersection.rs, which find_self_collisions calls for every edge against itself, generated): the recursion of find_intersection_point_in_loop case by case for any clipper (in_loop_cases), a reported pair is ordered and in 0..1 (self_intersection_ordered) and names close points (self_intersection_close). single_label_predicates: with one label the generated predicate of path_remove_interior_points is 'count != 0' and that of path_remove_overlapped_points is 'count odd'; "
                   "counter_is_signed_sum: the counter the loop keeps for a label is the signed number of crossings of that label, for every crossing list; remove_interior_rule / remove_overlapped_rule: along every ray "
                   "starting outside, the number of exterior-marked groups is odd exactly when the ray ends at a point of non-zero (resp. odd) count. Model tied by H2 trace replay of every ray. "
                   "NOT proved: crossing detection for self-intersecting input (graph self-collision) and path assembly: search oracle only.",
@@ -563,14 +563,15 @@ PROPS["C03"] = {
 
 PROPS["C20"] = {
     "title": "Core queries are total on finite input",
-    "props_modules": ["C20", "C20Roots", "C20Clip"],
-    "gen_modules": ["Consts", "Basis", "Section", "Lines", "FatLine", "CurveLine", "CurveBounds", "Walk", "Fit", "Nearest", "Length", "PointInPath", "Normal", "Total", "Roots"],
+    "props_modules": ["C20", "C20Roots", "C20Clip", "C20Self"],
+    "gen_modules": ["Consts", "Basis", "Section", "Lines", "FatLine", "CurveLine", "CurveBounds", "Walk", "Fit", "Nearest", "Length", "PointInPath", "Normal", "Total", "Roots", "Offset", "SelfIntersect"],
     "corr_n": (24000, 300000),
     "search_n": (1000, 100000),
     "technique": "Lean 4 theorems 'finite in, finite out' about definitions translated from the Rust source on every run, instantiated at XQ (exact rationals with the IEEE-754 rules for "
                  "signed zeros, x/0, 0/0, inf-inf, 0*inf, sqrt of negatives, unordered NaN comparisons), work-bound theorems for the translated loops + class-exact correspondence of the same "
                  "instance and of the Float mirror with the real code on degenerate inputs + degenerate catalogue x every core operation on the real code (panic / hang / non-finite)",
-    "level_text": "Partial. line_clip_to_bounds_fin (Props/C20Clip, the function generated since session 4): a returned segment is finite for every finite line and box - edge/delta is only reached after delta == 0.0 answered false "
+    "level_text": "Partial. in_loop_cases (Props/C20Self; self_intersection.rs is generated since session 4): for any clipper and any depth, find_intersection_point_in_loop reaches its unimplemented!() ONLY on a dyadic subsection both halves of which are characterised as loops, and otherwise answers with the last arm on a dyadic subsection neither half of which is a loop; self_intersection_ordered / self_intersection_close: a reported pair has 0 <= t1 <= t2 <= 1 and names points as close as the clipper guarantees; find_self_intersection_point_none. " 
+                  "line_clip_to_bounds_fin (Props/C20Clip, the function generated since session 4): a returned segment is finite for every finite line and box - edge/delta is only reached after delta == 0.0 answered false "
                   "(foldlRet_inv / foldlRet_inr: invariant and return-value lemmas for a for-loop with state that can return). " "PROVED for ALL finite inputs, degenerate ones included (coincident control points, point lines, parameters 0 and 1, empty and reversed sections, zero and negative "
                   "distances and tolerances): every number returned is finite - every division the code reaches has a non-zero divisor thanks to its guard, and every non-finite intermediate value "
                   "the code does produce is discarded by a comparison before it reaches the result - for: basis / de_casteljau2-4 / point_at_pos / subdivide / reverse / derivative / coefficients; "
